@@ -115,8 +115,11 @@ fn sym_bytes(n: usize) -> Vec<u8> {
     while i < n { v.push(kani::any()); i += 1; }
     v
 }
-fn h264_has_idr_ref(d: &[u8]) -> bool {
-    // independent scan: a non-empty unit after a 3/4-byte start code whose first byte has nal_unit_type 5
+fn h264_has_idr_ref(d: &[u8]) -> bool { has_unit_ref(d, false) }
+/// H.265: nal_unit_type = bits 1..6 of the first header byte; IDR_W_RADL 19, IDR_N_LP 20, CRA 21
+fn h265_has_irap_ref(d: &[u8]) -> bool { has_unit_ref(d, true) }
+fn has_unit_ref(d: &[u8], hevc: bool) -> bool {
+    // independent scan: a non-empty unit after a 3/4-byte start code whose first byte has the wanted nal_unit_type
     let mut i = 0;
     let mut found = false;
     while i + 3 <= d.len() {
@@ -126,7 +129,8 @@ fn h264_has_idr_ref(d: &[u8]) -> bool {
             let empty = s >= d.len()
                 || (s + 3 <= d.len() && d[s] == 0 && d[s + 1] == 0 && d[s + 2] == 1)
                 || (s + 4 <= d.len() && d[s] == 0 && d[s + 1] == 0 && d[s + 2] == 0 && d[s + 3] == 1);
-            if !empty && (d[s] & 0x1f) == 5 { found = true; }
+            if !empty && !hevc && (d[s] & 0x1f) == 5 { found = true; }
+            if !empty && hevc { let t = (d[s] >> 1) & 0x3f; if t >= 19 && t <= 21 { found = true; } }
         }
         i += 1;
     }
@@ -154,7 +158,8 @@ fn kb_is_keyframe_h265() {
     let n: usize = kani::any();
     kani::assume(n >= 1 && n <= 6);
     let d = sym_bytes(n);
-    let _ = m.is_keyframe(&d);
+    let k = m.is_keyframe(&d);
+    assert!(k == h265_has_irap_ref(&d));
     core::mem::forget(m);
 }
 #[kani::proof]
@@ -223,4 +228,21 @@ fn muxer_with_audio(codec: AudioCodec, sr: u32, ch: u16) -> Muxer<Vec<u8>> {
         Ok(m) => m,
         Err(e) => { core::mem::forget(e); kani::assume(false); unreachable!() }
     }
+}
+
+// ---- BOUNDED panic-freedom of the public codec parsers on every input of up to 6 bytes (C12): these run the unmodified functions and
+// ---- keep a changed tree decidable when a parser changes shape (the always-on assert_invariant! checks are real panics here)
+#[kani::proof]
+#[kani::unwind(10)]
+#[kani::stub(crate::invariant_ppt::__assert_invariant_impl, stub_inv)]
+fn kb_parsers_vp9_opus_small() {
+    let n: usize = kani::any();
+    kani::assume(n <= 8);
+    let d = sym_bytes(n);
+    let c = crate::codec::vp9::extract_vp9_config(&d);
+    let k = crate::codec::vp9::is_vp9_keyframe(&d);
+    let _ = crate::codec::vp9::is_valid_vp9_frame(&d);
+    let _ = crate::codec::opus::is_valid_opus_packet(&d);
+    let _ = crate::codec::opus::opus_packet_samples(&d);
+    core::mem::forget(c); core::mem::forget(k);
 }
